@@ -343,6 +343,15 @@ fn plan_method_term(files: &[File], names: &[String], reg: &Registry, w: &Wiring
     let plan = if w.fixed { "FixedChannelPlan" } else { "DynamicChannelPlan" };
     let (sig, body, tparam) = handler_method(&items, plan, method)?;
     let what = format!("{}::{} for {}", plan, method, w.variant);
+    // Rust resolves `state.m(..)` to an INHERENT method of the plan type before the trait's: such a method would make the
+    // `RegionHandler` impl followed here the wrong callee
+    for it in &items {
+        if let Item::Impl(im) = it {
+            if im.trait_.is_none() && type_name(&im.self_ty) == plan && im.items.iter().any(|ii| matches!(ii, ImplItem::Fn(g) if g.sig.ident == method)) {
+                return Err(format!("{}: {} has an inherent method `{}` that takes precedence over RegionHandler's (not supported)", what, plan, method));
+            }
+        }
+    }
     let params = fn_params(sig)?;
     if params.len() != args.len() {
         return Err(format!("{}: takes {} arguments, the dispatch passes {}", what, params.len(), args.len()));
